@@ -5,6 +5,7 @@ with the right depths, LCP pass.
 -/
 import TlxVerif.Proofs.C04Sample0
 namespace TlxVerif.C04
+variable {af : Bool}
 
 /-- what the step knows about its classifier -/
 structure ClsOk (env : Env) (p : Str) (strs : List Str) (c : Classifier) : Prop where
@@ -123,12 +124,40 @@ theorem odd_bucket_key {env : Env} {p : Str} {strs : List Str} {c : Classifier}
   have h := findBkt_odd hf (by omega)
   rw [hdiv, h0] at h; cases h; exact hk
 
+/-- in a sorted list a member sits at its own lower bound (the first of its equals) -/
+theorem lowerBound_self (S : List Key) (hs : S.Pairwise (fun a b => a ≤ b)) {s : Key} (h : s ∈ S) :
+    S[lowerBound S s]? = some s := by
+  obtain ⟨j, hj, hsj⟩ := List.getElem_of_mem h
+  have hlbj : lowerBound S s ≤ j := by
+    rcases Nat.lt_or_ge j (lowerBound S s) with hlt | hge
+    · obtain ⟨x, hx, hxk⟩ := lowerBound_gt S hs j s hlt
+      rw [List.getElem?_eq_getElem hj, hsj] at hx; cases hx
+      rw [BitVec.lt_def] at hxk; omega
+    · exact hge
+  obtain ⟨lb, hlb⟩ : ∃ lb, lowerBound S s = lb := ⟨_, rfl⟩
+  rw [hlb] at hlbj ⊢
+  have hlt : lb < S.length := by omega
+  rw [List.getElem?_eq_getElem hlt]
+  congr 1
+  have h1 : ¬ S[lb] < s := by
+    intro hx
+    have := lt_lowerBound_of_sorted S hs lb S[lb] s (List.getElem?_eq_getElem hlt) hx
+    omega
+  have h2 : S[lb] ≤ s := by
+    rcases Nat.lt_or_ge lb j with h | h
+    · rw [← hsj]; exact List.pairwise_iff_getElem.1 hs lb j hlt hj h
+    · have : lb = j := by omega
+      subst this; rw [hsj]; exact BitVec.le_refl _
+  apply BitVec.eq_of_toNat_eq
+  rw [BitVec.lt_def] at h1; rw [BitVec.le_def] at h2; omega
+
 /-- **One bucket of a sample sort step** is handled correctly (given correct recursive calls) -/
-theorem bucketBody_safe {env : Env} (henv : EnvOk env) {rec : Rec} (hrec : RecOk rec) {mode : Mode}
-    (hmode : mode = .big ∨ mode = .seqss) {p : Str} {strs : List Str} {c : Classifier} (hr : RangeOk p strs)
+theorem bucketBody_safe {env : Env} (henv : EnvOk env) {rec : Rec} {mode : Mode}
+    (hmode : mode = .big ∨ mode = .seqss) {p : Str} {strs : List Str} (hrec : RecOk af (mu mode strs p.length) rec)
+    {c : Classifier} (hr : RangeOk p strs)
     (hc : ClsOk env p strs c) {i : Nat} {bk : List Str} (hi : i < 2 * numSplitters env.p.treebits + 1)
-    (hin : InBucket env p strs c i bk) :
-    Safe (bucketBody env rec mode c p.length (2 * numSplitters env.p.treebits + 1) (bk, i)) (SortedLcp bk) := by
+    (hin : InBucket env p strs c i bk) (hsub : bk.Sublist strs) (hmiss : i % 2 = 0 → ∃ u ∈ strs, u ∉ bk) :
+    Safe af (bucketBody env rec mode c p.length (2 * numSplitters env.p.treebits + 1) (bk, i)) (SortedLcp bk) := by
   unfold bucketBody
   simp only
   have hbk : RangeOk p bk := hr.sub (fun s hs => (hin s hs).1)
@@ -153,6 +182,8 @@ theorem bucketBody_safe {env : Env} (henv : EnvOk env) {rec : Rec} (hrec : RecOk
         · exact ⟨p, rfl, hbk⟩
         · exact ⟨p', hp'l, hp'r⟩
       obtain ⟨q, hql, hqr⟩ := hd
+      obtain ⟨u, hu, hun⟩ := hmiss hev
+      have hm := msize_miss (d := q.length) hr hsub hu hun (by rw [hql]; split <;> omega)
       rw [← hql]
       rcases hmode with rfl | rfl
       · simp only [if_true]
@@ -161,12 +192,12 @@ theorem bucketBody_safe {env : Env} (henv : EnvOk env) {rec : Rec} (hrec : RecOk
           match bk, h1 with
           | [s], _ => exact single_good s
         · simp only [h1, if_false]
-          exact hrec .enq bk q hqr trivial
+          exact hrec .enq bk q hqr trivial (fun _ => by simp only [mu, Mode.rank]; omega)
       · have : ¬ (Mode.seqss = Mode.big) := by decide
         simp only [this, if_false]
         split
-        · exact hrec .mkqsTop bk q hqr trivial
-        · exact hrec .seqss bk q hqr hne
+        · exact hrec .mkqsTop bk q hqr trivial (fun _ => by simp only [mu, Mode.rank]; omega)
+        · exact hrec .seqss bk q hqr hne (fun _ => by simp only [mu, Mode.rank]; omega)
     · -- `=` bucket
       simp only [hev, if_false]
       obtain ⟨j, rfl⟩ : ∃ j, i = 2 * j + 1 := ⟨i / 2, by omega⟩
@@ -202,15 +233,17 @@ theorem bucketBody_safe {env : Env} (henv : EnvOk env) {rec : Rec} (hrec : RecOk
         · simp only [hfl, if_false]
           have hlow : lowByte spl ≠ 0 := fun e => hfl (hflag.2 e)
           obtain ⟨q, hql, hqr⟩ := deeper_range hbk hkeys hlow hne
+          have hm1 := msize_deeper (l := bk) (d := p.length) (k := 8) (fun s hs => by rw [← hql]; exact hqr.len s hs) hne
+          have hm2 := msize_sublist hsub p.length
           rw [← hql]
           rcases hmode with rfl | rfl
           · simp only [if_true]
-            exact hrec .enq bk q hqr trivial
+            exact hrec .enq bk q hqr trivial (fun _ => by simp only [mu, Mode.rank, hql]; omega)
           · have : ¬ (Mode.seqss = Mode.big) := by decide
             simp only [this, if_false]
             split
-            · exact hrec .mkqsTop bk q hqr trivial
-            · exact hrec .seqss bk q hqr hne
+            · exact hrec .mkqsTop bk q hqr trivial (fun _ => by simp only [mu, Mode.rank, hql]; omega)
+            · exact hrec .seqss bk q hqr hne (fun _ => by simp only [mu, Mode.rank, hql]; omega)
 
 /-! ### assembling the step -/
 
@@ -259,9 +292,10 @@ theorem bucketsOf_length (strs : List Str) (ids : List Nat) (n : Nat) : (buckets
   simp [bucketsOf]
 
 /-- **One sample sort step is correct** (given correct recursive calls): for every sample drawn. -/
-theorem sampleBody_safe {env : Env} (henv : EnvOk env) {rec : Rec} (hrec : RecOk rec) {mode : Mode}
-    (hmode : mode = .big ∨ mode = .seqss) {p : Str} {strs : List Str} (hr : RangeOk p strs) (hne : strs ≠ []) :
-    Safe (sampleBody env rec mode strs p.length) (SortedLcp strs) := by
+theorem sampleBody_safe {env : Env} (henv : EnvOk env) {rec : Rec} {mode : Mode}
+    (hmode : mode = .big ∨ mode = .seqss) {p : Str} {strs : List Str} (hrec : RecOk af (mu mode strs p.length) rec)
+    (hr : RangeOk p strs) (hne : strs ≠ []) :
+    Safe af (sampleBody env rec mode strs p.length) (SortedLcp strs) := by
   unfold sampleBody
   simp only
   have hnpos : 0 < strs.length := List.length_pos_iff.2 hne
@@ -355,6 +389,27 @@ theorem sampleBody_safe {env : Env} (henv : EnvOk env) {rec : Rec} (hrec : RecOk
       rw [← hbl]; exact (List.getElem?_eq_some_iff.1 hbi).1
     have := mem_bucketsOf (strs := strs) (ids := ids) hil (s := s) (by rw [hbk, hbi]; exact hs)
     exact hzip (s, i) this
+  -- the buckets are sub-lists of the range; the string a splitter was taken from is in no `<` bucket
+  have hsubl : ∀ (i : Nat) (bk : List Str), bkts[i]? = some bk → bk.Sublist strs := by
+    intro i bk hb
+    have hil : i < 2 * numSplitters env.p.treebits + 1 := by
+      rw [← hbl]; exact (List.getElem?_eq_some_iff.1 hb).1
+    rw [← hbk] at hb
+    unfold bucketsOf at hb
+    rw [List.getElem?_map, List.getElem?_range hil] at hb
+    simp only [Option.map_some, Option.some.injEq] at hb
+    rw [← hb]
+    exact part_sublist strs ids (by omega) _
+  have hmiss : ∃ u ∈ strs, ∀ (i : Nat) (bk : List Str), i % 2 = 0 → bkts[i]? = some bk → u ∉ bk := by
+    have h0 : 0 < c'.splitters.length := by omega
+    obtain ⟨u, hu, huk⟩ := hcls.splKey c'.splitters[0] (List.getElem_mem h0)
+    refine ⟨u, hu, fun i bk hev hb hub => ?_⟩
+    obtain ⟨_, k, hk1, hk2⟩ := hinb i bk hb u hub
+    rw [huk] at hk1; cases hk1
+    rw [findBkt_bst hbst' hcls.spl, lowerBound_self _ hsrt (List.getElem_mem h0)] at hk2
+    simp only [if_true, Option.some.injEq] at hk2
+    omega
+  obtain ⟨um, hum, humiss⟩ := hmiss
   -- the buckets
   refine Safe.bind (Safe.mapM (P := fun bi r => SortedLcp bi.1 r) bkts.zipIdx (fun bi hbi => ?_)) (fun rs hrs => ?_)
   · obtain ⟨bk, i⟩ := bi
@@ -362,7 +417,8 @@ theorem sampleBody_safe {env : Env} (henv : EnvOk env) {rec : Rec} (hrec : RecOk
     simp only at hbi'
     have hil : i < 2 * numSplitters env.p.treebits + 1 := by
       rw [← hbl]; exact (List.getElem?_eq_some_iff.1 hbi').1
-    exact bucketBody_safe henv hrec hmode hr hcls hil (hinb i bk hbi')
+    exact bucketBody_safe henv hmode hrec hr hcls hil (hinb i bk hbi') (hsubl i bk hbi')
+      (fun hev => ⟨um, hum, humiss i bk hev hbi'⟩)
   -- indexed view of the results
   have hrslen : rs.length = bkts.length := by rw [← hrs.length_eq, List.length_zipIdx]
   have hrsi : ∀ (i : Nat) (bk : List Str) (r : Res), bkts[i]? = some bk → rs[i]? = some r → SortedLcp bk r := by
